@@ -1362,9 +1362,63 @@ pub fn do_wait(conn: &mut Conn<'_, '_>, kind: Wait, opts: Option<ExecOpts>) -> R
         Wait::Recv => "recv",
         Wait::Drive => "drive",
     };
+    let live_after = conn.is_connected();
     with(|w| {
         check_result(w, opname, &res, was_live, io_err_before);
         let cur = w.cur;
+        if res == Res::PacketTooLarge && live_after && w.conns[cur].established && !w.ids_ambiguous && !w.raw_mode {
+            // The connection stays up, so this is not the acknowledgement that does not fit
+            // (C14): the client refuses to (re)transmit something it holds. That is only right
+            // if one of the packets it holds really exceeds the Maximum Packet Size of *this*
+            // connection's CONNACK.
+            let limit = w.conns[cur].max_packet_size;
+            let ep = w.epoch;
+            let mut unknown = false;
+            let mut too_large = false;
+            let mut blocked: Option<(u32, &'static str, &'static str)> = None;
+            for r in w.reqs.iter() {
+                if r.epoch != ep || r.invalidated || r.accept == Accept::NotAccepted || matches!(r.phase, Phase::Done(_)) || r.qos == 0 {
+                    continue;
+                }
+                if r.ambiguous || r.accept == Accept::Maybe {
+                    unknown = true;
+                    continue;
+                }
+                let len = match (r.phase, &r.first_tx) {
+                    // a PUBREL has 4 bytes, 5 with a reason code, 6 with an empty property block:
+                    // any of these forms is the client's choice
+                    (Phase::Release, _) => 6,
+                    (_, Some(b)) => b.len(),
+                    _ => {
+                        unknown = true;
+                        continue;
+                    }
+                };
+                if limit.map_or(false, |m| len as u64 > m as u64) {
+                    too_large = true;
+                } else if blocked.is_none() && r.tx_by_conn.get(&cur).copied().unwrap_or(0) == 0 && w.conns[cur].must_replay.contains(&r.tag) {
+                    blocked = Some(match (r.kind, r.qos, r.phase) {
+                        (ReqKind::Pub, 1, _) => (r.tag, "C02", "pub1"),
+                        (ReqKind::Pub, _, Phase::Release) => (r.tag, "C03", "pubrel"),
+                        (ReqKind::Pub, _, _) => (r.tag, "C03", "pub2"),
+                        (ReqKind::Sub, _, _) => (r.tag, "C05", "sub"),
+                        _ => (r.tag, "C05", "unsub"),
+                    });
+                }
+            }
+            if !unknown && !too_large {
+                if let Some((tag, prop, kind_s)) = blocked {
+                    w.violate(
+                        prop,
+                        format!("not-retransmitted-on-resumed-connection/{kind_s}/refused-as-too-large-although-it-fits"),
+                        format!(
+                            "{opname} returned PacketTooLarge on connection {cur} (Maximum Packet Size of its CONNACK: {:?}) although every packet the session holds fits; request tag {tag} is not retransmitted",
+                            limit
+                        ),
+                    );
+                }
+            }
+        }
         match &res {
             Res::OkMsg(d) => check_delivery(w, d),
             Res::OkNone if kind == Wait::Poll => {
